@@ -18,8 +18,9 @@ func init() {
 		Explanation: "Decides ONE structural clause of 'the encryption parameters pdfcpu computes are those of the ISO 32000 algorithms': the constants those algorithms fix appear in the code as the standard states them. A self-consistent deviation (51 instead of 50 re-hash rounds on both the writing and the validating side) passes every round-trip test pdfcpu can run against itself and breaks every other reader. " +
 			"(R1 TABLE) the 32-byte padding string (7.6.3.3) byte for byte; Algorithm 2 / 3: the MD5 re-hash loop runs for counter values 0..49 and the RC4 loop for 1..19 (the counter is the XOR operand), both only for revision ≥ 3 — loop ranges are read off the counter φ, its constant start, the +1 step and the constant bound of the loop test, also for range-over-integer loops; revision 2 keys are cut to 5 bytes; the 0xFFFFFFFF suffix is hashed only when metadata is not encrypted; Algorithm 2.A/2.B: validation salt = bytes 32..39, key salt = bytes 40..47 of /O and /U; the inner block is repeated 64 times, at least 64 rounds, continuation test against round − 32; passwords are cut at 127 bytes; /Perms: bytes 9..11 are 'adb', byte 8 is 'T' or 'F' (read side), and the block written by writePermissions stores FF at bytes 4..7, 'T'/'F' at 8 and 'adb' at 9..11 as constants. " +
 			"(R2) the termination rule of Algorithm 2.B is read off the exit edges of hashRev6's round loop as linear facts over the round counter, normalised to the number of completed rounds (position of the test in the iteration). (R3) IDFirstElement returns, for a literal string, the result of types.Unescape (directly or through a helper) and for a hex string its decoded bytes: Algorithms 2 and 5 hash the ID string's value, and another producer's escaped bytes (\\( \\) \\\\ or octal) are not that value. " +
+			"(R4) in the four AES-256 password validators (and a preparation helper they share, if any) the value cut with [:127] derives from the result of processInput (SASLprep), and processInput's argument is not a cut value: Algorithm 2.A normalises first and truncates the UTF-8 result. " +
 			"NOT decided: the hash, cipher and big-integer arithmetic (standard library), SASLprep, that the pieces are concatenated in the order the algorithms give, key lengths other than through L/8.",
-		Rules:       []string{"C24.R1 TABLE: constants of ISO 32000 algorithms 2, 3, 4/5, 2.A, 2.B, 8–13 (padding string, round counts, salt offsets, truncations, /Perms markers)", "C24.R2 linear facts: the round loop of Algorithm 2.B is left exactly when n >= 64 and last <= n - 32 (n = completed rounds)", "C24.R3 flow: the first /ID element that enters the key derivation is the string's value (unescaped literal / decoded hex), as written by the file writer"},
+		Rules:       []string{"C24.R1 TABLE: constants of ISO 32000 algorithms 2, 3, 4/5, 2.A, 2.B, 8–13 (padding string, round counts, salt offsets, truncations, /Perms markers)", "C24.R2 linear facts: the round loop of Algorithm 2.B is left exactly when n >= 64 and last <= n - 32 (n = completed rounds)", "C24.R3 flow: the first /ID element that enters the key derivation is the string's value (unescaped literal / decoded hex), as written by the file writer", "C24.R4 order: the 127-byte cut of Algorithm 2.A is applied to the SASLprep output, not to its input"},
 		Assumptions: []string{"crypto/md5, rc4, aes, sha256, sha512 are correct"},
 		Level:       "other",
 		Technique:   "spec-constant table agreement on SSA: global initialiser bytes, counter-loop ranges, slice bounds, compared constants",
@@ -171,6 +172,8 @@ func runC24(c *Ctx) {
 	checkHashRev6Termination(c)
 	r.MinInst["C24.R3"] = 1
 	checkIDUnescaped(c)
+	r.MinInst["C24.R4"] = 4
+	checkPasswordCutAfterSASLprep(c)
 	ok := func(fid, construct, pos, why string) { r.OK("C24.R1", fid, construct, pos, why, true) }
 	bad := func(fid, construct, pos, why string) { r.Bad("C24.R1", fid, construct, pos, why) }
 	// ---- padding string
@@ -279,12 +282,27 @@ func runC24(c *Ctx) {
 			}
 		}
 		sb := sliceBounds(fn)
+		cc := comparedConsts(fn)
+		if strings.HasPrefix(fn.Name(), "validate") {
+			// a password-preparation helper of the same package may hold the cut (checked for order by R4)
+			eachInstr(fn, func(_ *ssa.BasicBlock, _ int, i ssa.Instruction) {
+				if call, ok := i.(*ssa.Call); ok {
+					if f := staticCallee(call); f != nil && f.Pkg == fn.Pkg && len(f.Blocks) > 0 && callsProcessInput(f) {
+						for k := range sliceBounds(f) {
+							sb[k] = true
+						}
+						for k := range comparedConsts(f) {
+							cc[k] = true
+						}
+					}
+				}
+			})
+		}
 		for _, s := range w.slices {
 			if !sb[s] {
 				miss = append(miss, "no slice ["+s+"]")
 			}
 		}
-		cc := comparedConsts(fn)
 		for _, k := range w.consts {
 			if !cc[k] {
 				miss = append(miss, fmt.Sprintf("no comparison with %d", k))
